@@ -144,6 +144,8 @@ class ModelMixin(ModelMixin2, ModelMixin3):
                 return 'parsed-document'
             if k == 'elem-of':
                 return f'element-of({o[1]})'
+            if len(o) == 2 and isinstance(o[1], tuple) and isinstance(k, str) and hasattr(str, k):
+                return f'{d(o[1])}.{k}()'          # result of a str method on a described value
             return str(k)
         return str(o)
 
@@ -216,6 +218,20 @@ class ModelMixin(ModelMixin2, ModelMixin3):
         if isinstance(v, ExtV):
             if v.name.startswith('sentinel:') or v.name.startswith('singleton:'):
                 return [(True, st)]
+        if isinstance(v, StrV):
+            # emptiness of a string value is remembered per value description (pure re-evaluations agree)
+            k = self.vkey(v, st)
+            if ('nonempty', k) in st.facts:
+                return [(True, st)]
+            if ('emptystr', k) in st.facts:
+                return [(False, st)]
+            self.stats['forks'] += 1
+            s2 = st.copy()
+            st.facts.add(('nonempty', k))
+            s2.facts.add(('emptystr', k))
+            self.hook('truth-fork', st, node, val=v, taken=True)
+            self.hook('truth-fork', s2, node, val=v, taken=False)
+            return [(True, st), (False, s2)]
         # unknown truthiness: fork
         self.stats['forks'] += 1
         s2 = st.copy()
